@@ -732,3 +732,98 @@ func nilBeliefAcrossCallSites(c *core.Ctx) {
 	}
 	c.Stat("stored_results_judged", n)
 }
+
+// failedAssertionOperandUse (C03-R9): on the surface that no recover protects,
+// the operand of a failed comma-ok type assertion is not used as a receiver
+// without a nil test.  `fn, ok := obj.(*Function); if !ok { obj.Type() }` — a
+// nil interface also fails the assertion, and the method call then panics in
+// the caller (risor.Call on a global that was declared but never assigned).
+func failedAssertionOperandUse(c *core.Ctx) {
+	p := c.P
+	surf, _ := unprotectedSurface(p)
+	var fns []*ssa.Function
+	for f := range surf {
+		// the host-facing entry points themselves: what they get back from the VM they must test
+		if f.Blocks != nil && f.Pkg != nil && core.RelPkg(f.Pkg.Pkg) == "." {
+			fns = append(fns, f)
+		}
+	}
+	sort.Slice(fns, func(i, j int) bool { return core.SSAName(fns[i]) < core.SSAName(fns[j]) })
+	n := 0
+	for _, fn := range fns {
+		k := 0
+		for _, b := range fn.Blocks {
+			for _, in := range b.Instrs {
+				ta, ok := in.(*ssa.TypeAssert)
+				if !ok || !ta.CommaOk || ta.Referrers() == nil {
+					continue
+				}
+				if _, isI := ta.X.Type().Underlying().(*types.Interface); !isI {
+					continue
+				}
+				// only values this function obtained from a call (their nil-ness is this function's business;
+				// a parameter's is the caller's)
+				fromCall := false
+				for _, o := range core.Origins(ta.X) {
+					switch x := o.(type) {
+					case *ssa.Call:
+						fromCall = true
+					case *ssa.Extract:
+						if _, ok := x.Tuple.(*ssa.Call); ok {
+							fromCall = true
+						}
+					}
+				}
+				if !fromCall {
+					continue
+				}
+				// the ok value and the branch taken when it is false
+				for _, r := range *ta.Referrers() {
+					ex, isEx := r.(*ssa.Extract)
+					if !isEx || ex.Index != 1 || ex.Referrers() == nil {
+						continue
+					}
+					for _, r2 := range *ex.Referrers() {
+						iff, isIf := r2.(*ssa.If)
+						if !isIf {
+							continue
+						}
+						failBlk := iff.Block().Succs[1]
+						// invokes on ta.X in blocks dominated by failBlk
+						for _, b2 := range fn.Blocks {
+							if b2 != failBlk && !failBlk.Dominates(b2) {
+								continue
+							}
+							if len(failBlk.Preds) != 1 {
+								continue
+							}
+							for _, i2 := range b2.Instrs {
+								call, isC := i2.(*ssa.Call)
+								if !isC || !call.Call.IsInvoke() || call.Call.Value != ta.X {
+									continue
+								}
+								n++
+								k++
+								// operand known non-nil: a parameter of an internal function is not; a dominating nil test is
+								guarded := false
+								for d := b2; d != nil; d = d.Idom() {
+									if len(d.Instrs) == 0 {
+										continue
+									}
+									if i3, ok := d.Instrs[len(d.Instrs)-1].(*ssa.If); ok {
+										if bo, ok := i3.Cond.(*ssa.BinOp); ok && (bo.X == ta.X || bo.Y == ta.X) {
+											guarded = true
+										}
+									}
+								}
+								c.Check(guarded, core.SSAName(fn)+"|"+call.Call.Method.Name()+"#"+itoa(k)+"|on-operand-of-failed-assertion", p.Pos(call.Pos()),
+									fn.Name()+" calls "+call.Call.Method.Name()+"() on a value whose type assertion just failed; a nil interface fails it too, and this function runs outside any recover")
+							}
+						}
+					}
+				}
+			}
+		}
+	}
+	c.Stat("uses_after_failed_assertion", n)
+}
